@@ -147,8 +147,14 @@ impl Vm {
                     RuleType::CompoundAtomic => state.atomic(Atomicity::CompoundAtomic, |state| {
                         state.rule(&rule.name, |state| self.parse_expr(&rule.expr, state))
                     }),
-                    RuleType::NonAtomic => state.atomic(Atomicity::Atomic, |state| {
-                        state.rule(&rule.name, |state| self.parse_expr(&rule.expr, state))
+                    // Like the generated parser: the pair is produced as for any `!` rule,
+                    // only the body of WHITESPACE / COMMENT runs atomically.
+                    RuleType::NonAtomic => state.atomic(Atomicity::NonAtomic, |state| {
+                        state.rule(&rule.name, |state| {
+                            state.atomic(Atomicity::Atomic, |state| {
+                                self.parse_expr(&rule.expr, state)
+                            })
+                        })
                     }),
                 }
             } else {
